@@ -301,10 +301,12 @@ Definition is_ppwait (p : pc) : bool := match p with PPwait => true | _ => false
 (* the pump parked inside select!{notified(), recv()} is woken by close_notify.notify_waiters(): it leaves its
    loop and returns *)
 Definition wake_pump_closed (s : state) : state :=
-  match pump_owner s with
-  | Some p => if is_ppwait (t_pc (tasks s p)) then set_pump_done (finish s p ResClosed) else s
-  | None => s
-  end.
+  if closed s then     (* close() has swapped the flag before it notifies (always true where this is used: at PC1) *)
+    match pump_owner s with
+    | Some p => if is_ppwait (t_pc (tasks s p)) then set_pump_done (finish s p ResClosed) else s
+    | None => s
+    end
+  else s.
 
 (* Stream::send_data with the stream open: the item enters the channel; a pump parked in recv() takes it at
    once: it re-checks the closed flag (and leaves) or submits the frame (write_data_frame -> wf.enter) *)
